@@ -56,11 +56,15 @@ pub open spec fn any_named(s: Seq<Handle>, name: ExpandedName) -> bool { exists|
 // ---- what the rules need of the state, and keep (PROVED to be an invariant: established by `new`, kept by `step`) ----
 impl XmlTreeBuilder {
     pub open spec fn elems(&self) -> Seq<Handle> { self.open_elems.v@ }
-    /// in the main phase there is a current node; the per-tag namespace declarations are a well-formed map
+    /// in the main phase there is a current node; the per-tag namespace declarations are a well-formed map; the stack of namespace
+    /// scopes and the stack of open elements grow and shrink together
     pub open spec fn xinv(&self) -> bool {
         &&& (self.phase.v == XmlPhase::Main ==> self.elems().len() > 0)
         &&& self.cur().scope.wf()
+        // one namespace scope per open element, above the default scope (until the end phase)
+        &&& (self.phase.v != XmlPhase::End ==> self.balanced())
     }
+    pub open spec fn balanced(&self) -> bool { self.stack().len() == self.elems().len() + 1 }
     /// nothing but the sink changed
     pub open spec fn same_state(&self, o: &XmlTreeBuilder) -> bool { self.same_tree(o) && self.same_scopes(o) }
 }
